@@ -14,7 +14,7 @@ EXTENDS Integers, Sequences, TLC, Json, IOUtils
 VARIABLES d
 
 Ends == {"null", "int", "bool", "arr"}
-Defs == {"", "m", "+", "g", "s", "m+gs"}
+Defs == {"", "m", "+", "g", "s", "m+gs", "M", "G"}     \* M: m with two parameters, G: get without parameters (overriding with a different parameter count)
 Chains == UNION {[1..n -> Defs] : n \in 0..3}
 Calls == {"m1", "m0", "m2", "plus", "and", "index", "setindex", "get", "set", "zz", "field", "eqnull", "ne5", "feq", "fneq"}
 Kinds == {"var", "arg", "field", "elem", "this"}
